@@ -10,8 +10,8 @@ from harness import lr_tables as L
 
 META = {
     "technique": "Coq proof that a first-order LR table validator (check_sound) is sound for the model of Parser.parse, for all tables; the validator applied (extracted OCaml; inside Coq for a sample / all in thorough) to the tables lr1.py builds for the Emboss module and expression grammars and for N random small CFGs per run; differential correspondence Parser.parse vs model on all strings up to length 6 (small grammars) and derived sentences + mutations (Emboss), cross-checked with an independent Earley recogniser, ambiguity counter and derivation checker",
-    "level_text": "Machine-checked theorems (Coq 8.16, no axioms), for ALL tables, certificates, grammars, token lists and fuel: if check_sound G T C = true and run T accepts, the returned tree is a derivation tree of the start symbol of G whose leaves are the input tokens in order (run_sound, run_sound_gen); an error at index i depends only on tokens 0..i (run_prefix_det). If check_complete G T I F = true (LR(1) item sets and FIRST sets as untrusted certificate) every derivation tree of the start symbol is returned given enough fuel (run_complete), an error at index i implies that no sentence starts with tokens 0..i (error_not_late), and on a sentence run returns its tree or runs out of fuel (sentence_result), and G is unambiguous (unambiguous). The generator is covered per instance: each run rebuilds the Emboss parsers and N random small grammars' parsers with the working tree's lr1.py and decides check_sound and check_complete on their tables and item sets. 'No token is shifted unless a sentence continues' and 'ambiguous grammars are reported' are tested on every string up to length 6 (small grammars) and on sampled Emboss sentences against an independent Earley recogniser.",
-    "level_note": "sound and complete per validated instance (run_sound, run_complete, error_not_late proved for all tables passing the checkers; the checkers pass on the Emboss grammars and on every conflict-free random grammar of the run); error_not_early unproved (false for grammars with unproductive nonterminals; Earley-tested otherwise); the generator itself is covered by translation validation of its output, not by a proof about lr1.py. Trusted: Coq kernel + vm_compute; extraction + OCaml for instance checks in quick (a sample is re-evaluated inside Coq and compared; thorough re-evaluates all small-grammar instances inside Coq); harness/lr_tables.py translator (certificates it computes are untrusted inputs of the verified checker); the Python Earley recogniser is support/search only. Modelled, not verified: lr1.py itself.",
+    "level_text": "Machine-checked theorems (Coq 8.16, no axioms), for ALL tables, certificates, grammars, token lists and fuel: if check_sound G T C = true and run T accepts, the returned tree is a derivation tree of the start symbol of G whose leaves are the input tokens in order (run_sound, run_sound_gen); an error at index i depends only on tokens 0..i (run_prefix_det). If check_complete G T I F = true (LR(1) item sets and FIRST sets as untrusted certificate) every derivation tree of the start symbol is returned given enough fuel (run_complete), an error at index i implies that no sentence starts with tokens 0..i (error_not_late), and on a sentence run returns its tree or runs out of fuel (sentence_result), and G is unambiguous (unambiguous). The generator is covered per instance: each run rebuilds the Emboss parsers and N random small grammars' parsers with the working tree's lr1.py and decides check_sound and check_complete on their tables and item sets. With check_early (item cores valid) and check_productive (rank certificate) an error at index i implies tokens 0..i-1 start a sentence (error_not_early), so the error position is exact (error_position_exact); without productivity this is refuted (error_not_early_refuted, grammar S -> a S). These and 'ambiguous grammars are reported' are additionally tested on every string up to length 6 (small grammars) and on sampled Emboss sentences against an independent Earley recogniser.",
+    "level_note": "sound and complete per validated instance (run_sound, run_complete, error_not_late proved for all tables passing the checkers; the checkers pass on the Emboss grammars and on every conflict-free random grammar of the run); error_not_early / error_position_exact proved under check_early + check_productive (instantiated on the Emboss grammars and every conflict-free productive random grammar; refuted without productivity: error_not_early_refuted); the generator itself is covered by translation validation of its output, not by a proof about lr1.py. Trusted: Coq kernel + vm_compute; extraction + OCaml for instance checks in quick (a sample is re-evaluated inside Coq and compared; thorough re-evaluates all small-grammar instances inside Coq); harness/lr_tables.py translator (certificates it computes are untrusted inputs of the verified checker); the Python Earley recogniser is support/search only. Modelled, not verified: lr1.py itself.",
 }
 
 FUEL_SMALL = lambda n: 400 + 80 * n
@@ -51,6 +51,7 @@ def small_grammar_cases(ctx, bench, n_grammars, first_slot, corpus):
         sg.entries = []
         sg.sound = None
         sg.complete = None
+        sg.early = sg.productive = None
         sg.parser = None
         sg.unclean = len(L.clean_grammar(sg.start, sg.prods)) != len(sg.prods)
         _my = L.min_yields(sg.prods)
@@ -78,6 +79,9 @@ def small_grammar_cases(ctx, bench, n_grammars, first_slot, corpus):
         bench.cmd([10, sg.slot, sg.slot], lambda o, sg=sg: setattr(sg, "sound", o[3] == 1))
         sg.complete = None
         bench.cmd_complete(sg.slot, sg.slot, sg.prods, lambda o, sg=sg: setattr(sg, "complete", o[3] == 1))
+        sg.early = sg.productive = None
+        bench.cmd_early(sg.slot, sg.slot, sg.prods,
+                        lambda o, sg=sg: (setattr(sg, "early", o[3] == 1), setattr(sg, "productive", o[4] == 1)))
         terms = sorted(set(sg.parser.terminals) - {lr1.END_OF_INPUT})
         sg.terms = terms
         maxlen = 6 if len(terms) <= 3 else 5
@@ -192,6 +196,13 @@ def judge_small_grammar(ctx, bench, sg):
         if not sg.sound and not spec_failure:
             ctx.violation("check-sound-instance-fails", "check_sound rejects the conflict-free tables lr1.py built, no misparse found up to length 6",
                           dict(kind="theorem", theorem="check_sound G T C = true (instance)", **gram), found_input=False)
+        if not sg.early and not spec_failure:
+            ctx.violation("check-early-instance-fails", "check_early (item cores valid) rejects the conflict-free tables/item sets lr1.py built, no misparse found up to length 6",
+                          dict(kind="theorem", theorem="check_early G T I = true (instance)", **gram), found_input=False)
+        if bool(sg.productive) != (not sg.unproductive):
+            ctx.violation("check-productive-instance-disagrees", "check_productive = %s but the grammar has unproductive nonterminals %s"
+                          % (sg.productive, sg.unproductive),
+                          dict(kind="theorem", theorem="check_productive G R (instance)", **gram), found_input=False)
         if not sg.complete and not spec_failure:
             ctx.violation("check-complete-instance-fails", "check_complete rejects the conflict-free tables/item sets lr1.py built, no misparse found up to length 6",
                           dict(kind="theorem", theorem="check_complete G T I F = true (instance)", **gram), found_input=False)
@@ -307,7 +318,7 @@ def run(ctx):
         T0 = time.time()
 
     ctx.audit(extra_files=[os.path.join(fw.VERIF, "extract", "lr", "Extract.v")])
-    ctx.check_theorems("EmbossV.LR.Properties_C08", "LR/Properties_C08.v", expect_min=9)
+    ctx.check_theorems("EmbossV.LR.Properties_C08", "LR/Properties_C08.v", expect_min=13)
     lap("coq build + assumptions")
 
     driver = L.build_driver(ctx)
@@ -346,6 +357,8 @@ def run(ctx):
             rec = dict(parser=p, start=start, slot=slot, sound=None, complete=None, tab=tab)
             bench.cmd([10, slot, slot], lambda o, rec=rec: rec.__setitem__("sound", o[3] == 1))
             bench.cmd_complete(slot, slot, list(module_ir.PRODUCTIONS), lambda o, rec=rec: rec.__setitem__("complete", o[3] == 1))
+            bench.cmd_early(slot, slot, list(module_ir.PRODUCTIONS),
+                            lambda o, rec=rec: (rec.__setitem__("early", o[3] == 1), rec.__setitem__("productive", o[4] == 1)))
             if name == "module":
                 n_sent, budgets, n_e = (1500, [5, 20, 60, 150], 600) if thorough else (150, [5, 20, 60, 150], 90)
             else:
@@ -386,6 +399,13 @@ def run(ctx):
         ctx.obligation("correspondence: model run = Parser.parse on %d %s inputs" % (len(rec["entries"]), name), bad == 0)
         ctx.obligation("check_complete on lr1's tables + item sets for the Emboss %s grammar (%d item cores; extracted checker)"
                        % (name, len(rec["tab"].item_lines)), bool(rec["complete"]))
+        ctx.obligation("check_early and check_productive on the Emboss %s grammar/tables (error_position_exact instantiated; extracted checker)"
+                       % name, bool(rec.get("early")) and bool(rec.get("productive")))
+        if not (rec.get("early") and rec.get("productive")) and not nspec:
+            ctx.violation("check-early-instance-fails", "check_early=%s check_productive=%s on the Emboss %s grammar"
+                          % (rec.get("early"), rec.get("productive"), name),
+                          dict(kind="theorem", theorem="check_early G T I = true /\\ check_productive G R = true (Emboss %s instance)" % name),
+                          found_input=False)
         if not rec["sound"] and not nspec:
             ctx.violation("check-sound-instance-fails", "check_sound rejects the tables lr1.py built for the Emboss %s grammar" % name,
                           dict(kind="theorem", theorem="check_sound G T C = true (Emboss %s instance)" % name), found_input=False)
@@ -404,6 +424,11 @@ def run(ctx):
     ctx.obligation("check_sound = true on lr1's tables for each of the %d conflict-free random grammars" % ncf, not unsound)
     incomplete = [sg.slot for sg in smalls if sg.parser is not None and not sg.conflicts and not sg.complete]
     ctx.obligation("check_complete = true on lr1's tables + item sets for each of the %d conflict-free random grammars" % ncf, not incomplete)
+    cf = [sg for sg in smalls if sg.parser is not None and not sg.conflicts]
+    ctx.obligation("check_early = true (item cores valid) on each of the %d conflict-free random grammars; check_productive = true on the %d "
+                   "of them without unproductive nonterminals (error_not_early / error_position_exact instantiated), false on the other %d"
+                   % (len(cf), sum(1 for sg in cf if not sg.unproductive), sum(1 for sg in cf if sg.unproductive)),
+                   all(sg.early and bool(sg.productive) == (not sg.unproductive) for sg in cf))
     ctx.count("check_complete-true-on-grammars-with-conflicts", sum(1 for sg in smalls if sg.parser is not None and sg.conflicts and sg.complete))
     ctx.obligation("correspondence: model run = Parser.parse on %d strings over %d random grammars" % (nstr, len(smalls)), nbad == 0)
     ctx.extra["random_grammars"] = dict(total=len(smalls), conflict_free=ncf,
@@ -436,6 +461,9 @@ def coq_recheck(ctx, bench, smalls, thorough, emboss=None):
             lines += L.first_cert_lines(sg.prods, I)
             lines.append([22, sg.slot, sg.slot])
             expect.append([22, sg.slot, sg.slot, 1 if sg.complete else 0])
+            lines += L.rank_cert_lines(sg.prods, I)[0]
+            lines.append([24, sg.slot, sg.slot])
+            expect.append([24, sg.slot, sg.slot, 1 if sg.early else 0, 1 if sg.productive else 0])
             for e in sg.entries[: (400 if thorough else 150)]:
                 lines.append([13, sg.slot, FUEL_SMALL(len(e["w"]))] + [I.s(x) for x in e["w"]])
                 expect.append(e["model"])
@@ -451,6 +479,9 @@ def coq_recheck(ctx, bench, smalls, thorough, emboss=None):
             lines += L.first_cert_lines(prods, I)
             lines.append([22, rec["slot"], rec["slot"]])
             expect.append([22, rec["slot"], rec["slot"], 1 if rec["complete"] else 0])
+            lines += L.rank_cert_lines(prods, I)[0]
+            lines.append([24, rec["slot"], rec["slot"]])
+            expect.append([24, rec["slot"], rec["slot"], 1 if rec.get("early") else 0, 1 if rec.get("productive") else 0])
             for e in rec["entries"][:200]:
                 lines.append([13, rec["slot"], FUEL_BIG(len(e["w"]))] + [I.s(x) for x in e["w"]])
                 expect.append(e["model"])
